@@ -133,9 +133,11 @@ static bool HasViolation(const RunResult& rr, const std::string& prop, const std
 static Tape Shrink(const Tape& orig, const Profile& prof, const std::string& profile, const std::string& tier, const std::string& prop, const std::string& cls, int budget, int* reruns) {
   Tape best = orig;
   best.replay = true;
+  const char* dump = getenv("SIM_SHRINK_DUMP");   // debugging: the candidate about to run (survives a crash of that run)
   auto still = [&](Tape& cand) {
     (*reruns)++;
     cand.replay = true;
+    if (dump) { RunResult none; WriteReplay(dump, profile, tier, orig.seed, 0, cand, none, true); }
     RunResult rr = RunAny(cand, prof, profile, tier);
     return HasViolation(rr, prop, cls);
   };
@@ -169,9 +171,10 @@ static Tape Shrink(const Tape& orig, const Profile& prof, const std::string& pro
   return best;
 }
 
-namespace sim { extern bool g_live_trace; }
+namespace sim { extern bool g_live_trace; extern bool g_debug_explain; }
 int main(int argc, char** argv) {
   sim::g_live_trace = getenv("SIM_LIVE") != nullptr;
+  sim::g_debug_explain = getenv("SIM_DEBUG_EXPLAIN") != nullptr;
   GlobalInit();
   if (argc < 2) { fprintf(stderr, "usage: simninja run|replay|shrink|logdrv ...\n"); return 2; }
   std::string cmd = argv[1];
